@@ -295,12 +295,32 @@ func TestC19(t *testing.T) {
 			return "OK " + u256hex(v)
 		}))
 	}
-	// uint256 marshalling
-	for k := 0; k < cnt/5; k++ {
+	// uint256 marshalling: random values, the top of the range, and values whose decimal text
+	// has long runs of zeros (d * 10^k, 10^k +- small, sums of a few powers of ten)
+	var special256 []*big.Int
+	two256 := new(big.Int).Lsh(big.NewInt(1), 256)
+	for e := 0; e <= 77; e++ {
+		p := new(big.Int).Exp(big.NewInt(10), big.NewInt(int64(e)), nil)
+		for _, d := range []int64{1, 2, 9} {
+			special256 = append(special256, new(big.Int).Mul(p, big.NewInt(d)))
+		}
+		special256 = append(special256, new(big.Int).Add(p, big.NewInt(7)), new(big.Int).Sub(p, big.NewInt(1)))
+		if e >= 19 {
+			q := new(big.Int).Exp(big.NewInt(10), big.NewInt(int64(e-19)), nil)
+			special256 = append(special256, new(big.Int).Add(p, q), new(big.Int).Add(new(big.Int).Mul(p, big.NewInt(3)), big.NewInt(5)))
+		}
+	}
+	for k := 0; k < cnt/5+len(special256); k++ {
 		bits := rng.Intn(257)
 		x := new(big.Int).Rand(rng, new(big.Int).Lsh(big.NewInt(1), uint(bits)))
 		if k < 4 {
 			x = new(big.Int).Sub(new(big.Int).Lsh(big.NewInt(1), 256), big.NewInt(int64(k+1)))
+		}
+		if k >= cnt/5 {
+			x = special256[k-cnt/5]
+			if x.Cmp(two256) >= 0 || x.Sign() < 0 {
+				continue
+			}
 		}
 		var u uint256.Int
 		u.SetFromBig(x)
